@@ -6,6 +6,17 @@ import subprocess
 VERIF = os.path.dirname(os.path.dirname(os.path.abspath(__file__)))
 
 CHECKS = {
+    "C01": dict(
+        cat="other", ref="§5 C01",
+        text="Bounded solver verdict: (a) bit-vector translation of the MIR of compile_with_composer / trim / "
+             "truncate: for ALL constraint counts and key lengths compilation succeeds <=> npot(c+6)+6 <= L-1, the "
+             "key has npot(c+6)+7 powers (>= domain size + 6), no overflow/index panic feasible; (b) a completeness "
+             "instance: the real compile+prove+verify on a tiny satisfied circuit with symbolic SRS and ALL blinders "
+             "symbolic -- the verifier's acceptance polynomial of the honest proof is proven identically zero "
+             "(interpolation in the SRS secret over deg+1 points, each for all blinder values).",
+        note="(a) c, L < 2^40, Vec modelled by its length, preprocess opaque; (b) one tiny circuit (two in thorough), "
+             "scripted challenges; all sequences of components / real sizes are outside",
+        tech="MIR -> SMT-LIB bit-vectors (z3 QF_BV) + symbolic execution of the real prover/verifier + SMT"),
     "C02": dict(
         cat="other", ref="§5 C02",
         text="Bounded solver verdict on the symbolic run of the real verifier: the premises of the standard "
@@ -142,6 +153,16 @@ CHECKS = {
         note="SRS degree <=4 (thorough 8), <=3 polynomials per aggregate, batch size <=2 (thorough 4); "
              "random-oracle transcript; KZG binding is the standard assumption",
         tech="symbolic execution of the real KZG code (symbolic field + dlog groups) + SMT (z3)"),
+    "C15": dict(
+        cat="other", ref="§5 C15",
+        text="Bounded solver verdict (capacity part): bit-vector translation of the MIR of "
+             "Compiler::max_constraints, compile_with_composer/trim/truncate and packed_size_limit: for ALL constraint "
+             "counts (>= 4) and key lengths, c <= max_constraints(pp) <=> direct compilation's trim succeeds (the two "
+             "routes accept exactly the same capacities), no overflow panic, packed_size_limit exact or Err only on "
+             "overflow.",
+        note="identity of serialized keys between the two routes and decompression bounds are not yet covered here "
+             "(see DESIGN.md C15); c, L < 2^40",
+        tech="MIR -> SMT-LIB bit-vectors (z3 QF_BV)"),
 }
 
 NOT_APPLICABLE = {
